@@ -4,9 +4,12 @@ import json, os, glob
 ROOT = os.path.dirname(os.path.dirname(os.path.abspath(__file__)))
 ids = [json.loads(l)["id"] for l in open(os.path.join(ROOT, "properties.jsonl"))]
 checks, claimed = [], set()
+allow = set(open(os.path.join(ROOT, "checks", "claimed.txt")).read().split())
 for p in sorted(glob.glob(os.path.join(ROOT, "checks", "C*.json"))):
-    c = json.load(open(p))
     pid = os.path.basename(p)[:-5]
+    if pid not in allow:
+        continue  # a check is claimed only after it was validated on the unchanged tree (checks/claimed.txt)
+    c = json.load(open(p))
     claimed.add(pid)
     checks.append({
         "property_id": pid,
